@@ -34,7 +34,7 @@ for pid, v, sc in [("C01", "c01_verdicts", "c01_in_scope"), ("C02", "c02_verdict
                    ("C03", "c03_verdicts", "c03_in_scope"), ("C04", "c04_verdicts", "c04_in_scope"),
                    ("C18", "c18_verdicts", "c18_in_scope")]:
     reg(pid,
-        check_imports=["Model.Block", "Model.ForkDB", "Model.Forkable", "Check.Fk_Check", "Check.Fk_Props_Check"],
+        check_imports=["Model.Block", "Model.ForkDB", "Model.Forkable", "Check.Fk_Check", "Check.Fk_Props_Check", "Check.Fk_Moving_Scope"],
         case_type="fk_case", verdicts=v, scope=sc,
         property_modules=[], theorems=[],
         proof_files=list(FK_MODEL),
